@@ -115,13 +115,10 @@ theorem connect_self (c : Loc) (L : Int) (hL : 0 < L) (hwf : areaWF L L c = true
     have hin : ∀ l ∈ [Loc.compound [⟨a, L, .fwd⟩, ⟨0, b, .fwd⟩]], RingIn L l := by
       intro l hl
       simp only [List.mem_singleton] at hl; subst hl
-      exact Or.inr (Or.inl ⟨a, b, .fwd, rfl, by omega, by omega, by omega⟩)
+      exact RingInSpan.ringIn (Or.inr (Or.inl ⟨a, b, .fwd, rfl, by omega, by omega, by omega⟩))
     rw [connect_ring_closed _ L (by simp) hL hin]
-    have hb : bridgesOrigin (Loc.compound [⟨a, L, .fwd⟩, ⟨0, b, .fwd⟩]) = true :=
-      bridges_two a b L (by omega) (by omega)
-    have ht : toR (Loc.compound [⟨a, L, .fwd⟩, ⟨0, b, .fwd⟩]) = .two a b := by
-      simp only [toR, hb, if_true]
-      simp [Loc.parts]
+    have ht : toR (Loc.compound [⟨a, L, .fwd⟩, ⟨0, b, .fwd⟩]) = .two a b :=
+      toR_areaTwo a b L .fwd (by decide) (by omega) (by omega) (by omega)
     simp only [List.map, ht, connR, List.any_cons, List.any_nil, RLoc.isTwo, Bool.or_false, if_true, connB, RLoc.toLoc, fl]
 
 end ASV
